@@ -812,7 +812,7 @@ def _ws_cases(rng, tier):
 
 
 def gen_cases(rng, tier):
-    n = 5000 if tier == "quick" else 100000
+    n = 5000 if tier == "quick" else 60000
     for c in _c19b_cases():
         yield c
     for c in _ws_cases(rng, tier):
